@@ -1058,3 +1058,41 @@ Proof.
     unfold applied_oids in Hch. erewrite map_ext_in; [exact Hch|].
     intros m Hm. unfold toid, patch_oid. now rewrite Hpat.
 Qed.
+
+(* ---- small facts used by refresh ---- *)
+
+Lemma tinv_set_objs : forall K t objs',
+  tinv K t -> ns_extends (t_objs t) objs' -> tinv K (set_objs t objs').
+Proof.
+  intros K t objs' H He. pose proof (ns_store _ _ He) as He'.
+  destruct H as [X1 X2 X3 X4 X5 X6 X7 X8 X9 X10]. constructor; try assumption.
+  - cbn [t_objs set_objs]. eapply ns_extends_trans; eassumption.
+  - intros n o Hn. change (t_patch (set_objs t objs') n) with (t_patch t n) in Hn.
+    destruct (X8 n o Hn) as [p Hp]. exists p. cbn [t_objs set_objs]. now apply (parents_of_ext (t_objs t)).
+  - cbn [t_objs set_objs]. change (t_base_oid (set_objs t objs')) with (t_base_oid t).
+    change (toids (set_objs t objs')) with (toids t). now apply (chainl_ext (t_objs t)).
+Qed.
+
+Lemma delete_patches_patch : forall f t m,
+  f m = false -> t_patch (fst (delete_patches f t)) m = t_patch t m.
+Proof.
+  intros f t m Hm. unfold delete_patches. destruct (split_at_first f (t_applied t)) as [keep popped].
+  cbn [fst]. unfold t_patch. tproj. rewrite up_get_mark_deleted.
+  match goal with |- context [mem m ?d] => destruct (mem m d) eqn:E end; [|reflexivity].
+  apply mem_In in E. rewrite !in_app_iff, !filter_In in E. destruct E as [[_ E]|[[_ E]|[_ E]]]; congruence.
+Qed.
+
+Lemma delete_patches_objs : forall f t, t_objs (fst (delete_patches f t)) = t_objs t.
+Proof.
+  intros f t. unfold delete_patches. now destruct (split_at_first f (t_applied t)).
+Qed.
+
+Lemma new_applied_ok : forall n o t t',
+  new_applied n o t = TOk t' ->
+  t' = set_updated (set_lists t (t_applied t ++ [n]) (t_unapplied t) (t_hidden t))
+                   (up_set (t_updated t) n (Some o)).
+Proof.
+  intros n o t t' H. unfold new_applied in H.
+  destruct (first_parent (t_objs t) o); [|discriminate]. destruct (t_top t); [|discriminate].
+  destruct (Nat.eqb _ _); [|discriminate]. now injection H as <-.
+Qed.
